@@ -15,7 +15,7 @@ PROPERTY = "C16"
 LEVEL = "exploration"
 RULE = ("Hypothesis builds series of 5..80 samples and, with ~6-10 % of the mass in condition / identity_s0 / default_s / "
         "history, long series of 1000, 1023..1025, 2047..2049, 2400, 4095..4097 or 5000 samples (thorough also "
-        "8191..8193, 10000) described by a formula (sine + hash noise of prescribed energy E0, expanded in the body) "
+        "8192, 8193) described by a formula (sine + hash noise of prescribed energy E0, expanded in the body) "
         "whose smoothing conditions are drawn within 0.7..1.3 of E0 so that FITPACK stays cheap; short series: (eight spacing kinds incl. integer dtype, non-uniform gaps with "
         "max/min ratio <= 1e2, 1e6 offset; values: integers, dyadics, smooth + noise over seven decades of scale, "
         "ties, constant, sign-changing, 1e6 offset, pure sine, affine, and 'bigoffset' = +-1e8..1e10 + O(1) sine + "
@@ -179,7 +179,7 @@ def long_spec(draw, ctx):
     repeated gap motif; values offset + sig*sin(periods turns over the range) + hash noise whose summed squared
     deviation from its mean is E0.  Smoothing conditions for such a series are chosen near E0: FITPACK then needs
     O(100) knots and a few hundredths of a second, whereas s far below the noise energy costs seconds to minutes."""
-    return dict(n=draw(st.sampled_from(LONG_N + ctx.pick([], [8191, 8192, 8193, 10000]))),
+    return dict(n=draw(st.sampled_from(LONG_N + ctx.pick([], [8192, 8193]))),
                 xk=draw(st.sampled_from(["unit", "fstep", "motif"])), x0=float(draw(st.integers(-50, 50))),
                 h=draw(st.sampled_from([1.0, 0.25, 3.0, 0.01, 60.0])),
                 gaps=draw(st.lists(st.sampled_from([0.5, 1.0, 1.5, 2.0, 7.0]), min_size=1, max_size=4)),
@@ -226,7 +226,7 @@ def expanding(body):
 
 @st.composite
 def base(draw, ctx, ykind=None, nonconstant=False, m_hi=80, offsets=True, long_weight=0):
-    if long_weight and draw(st.integers(0, 15)) < long_weight:
+    if long_weight and draw(st.sampled_from(range(16))) < long_weight:
         sp = draw(long_spec(ctx))
         return dict(long=sp, xkind="long-" + sp["xk"], ykind="long", xint=False, xc="array", yc="array")
     m = draw(st.one_of(st.integers(5, 12), st.integers(5, m_hi)))
@@ -305,7 +305,7 @@ def to_function_case(draw, ctx):
 
 @st.composite
 def condition_case(draw, ctx):
-    case = draw(base(ctx, nonconstant=True, long_weight=1))
+    case = draw(base(ctx, nonconstant=True, long_weight=2))
     if "long" in case:
         # near the noise energy (see long_spec); 0.7..1.3 of it keeps the constraint active and the fit cheap
         case["s"] = min(max(draw(fl(0.7, 1.3)) * case["long"]["E0"], 1e-4), 1e2)
@@ -866,18 +866,18 @@ def _history(ctx, case):
 
 
 SUBCHECKS = [
-    Sub("to_function", "hyp", expanding(to_function_body), strategy=to_function_case, quick=250, thorough=6000,
+    Sub("to_function", "hyp", expanding(to_function_body), strategy=to_function_case, quick=250, thorough=5000,
         clause="to_function() with its default s passes through every sample and agrees with get()"),
-    Sub("condition", "hyp", expanding(condition_body), strategy=condition_case, quick=350, thorough=6000,
+    Sub("condition", "hyp", expanding(condition_body), strategy=condition_case, quick=350, thorough=5000,
         clause="smooth(s) keeps x and the length; sum of squared deviations <= s (0.1 % solver tolerance); the "
                "Weaver and the process function agree"),
-    Sub("identity_s0", "hyp", expanding(identity_body), strategy=identity_case, quick=300, thorough=6000,
+    Sub("identity_s0", "hyp", expanding(identity_body), strategy=identity_case, quick=300, thorough=5000,
         clause="s = 0 is the identity"),
-    Sub("affine", "hyp", expanding(affine_body), strategy=affine_case, quick=250, thorough=6000,
+    Sub("affine", "hyp", expanding(affine_body), strategy=affine_case, quick=250, thorough=5000,
         clause="affine data are returned unchanged for every s (also omitted)"),
-    Sub("default_s", "hyp", expanding(default_body), strategy=default_case, quick=300, thorough=6000,
+    Sub("default_s", "hyp", expanding(default_body), strategy=default_case, quick=300, thorough=5000,
         clause="s omitted means s = len(y)*var(y)"),
-    Sub("history", "hyp", expanding(history_body), strategy=history_case, quick=350, thorough=6000,
+    Sub("history", "hyp", expanding(history_body), strategy=history_case, quick=350, thorough=5000,
         clause="during a history of 3..8 steps on ONE Weaver: to_function() passes through the current get() samples "
                "every time and equals the spline of a fresh Weaver on the same samples; every smooth(s) step keeps x, "
                "obeys the smoothing condition w.r.t. the series just before it, is the identity for s = 0 and equals "
